@@ -50,7 +50,7 @@ func verifH_C04_step() {
 		S, R = 3, 3
 	}
 	a, st, m := verifWorld(S, R)
-	op := verifChoose(0, 5)
+	op := verifChoose(0, 6)
 	i := verifChoose(0, S-1)
 	j := verifChoose(0, R-1)
 	exp := make([][]bool, S)
@@ -58,6 +58,7 @@ func verifH_C04_step() {
 		exp[x] = append([]bool(nil), m[x]...)
 	}
 	gone := make([]bool, S)
+	ownLeft := -1
 	switch op {
 	case 0: // join
 		a.AddAll(verifSIDs[i], []Room{verifRooms[j]})
@@ -71,6 +72,9 @@ func verifH_C04_step() {
 			exp[i][y] = false
 		}
 		gone[i] = true
+	case 6: // a socket leaves the room named after its own id (Leave(id) / SocketsLeave(id)): still connected, still reachable
+		a.Delete(verifSIDs[i], Room(verifSIDs[i]))
+		ownLeft = i
 	case 3, 4, 5: // operator-wide join / leave / disconnect of the sockets selected by (T,E)
 		T, tb := verifSubset(R)
 		E, eb := verifSubset(R)
@@ -107,9 +111,18 @@ func verifH_C04_step() {
 		}
 		_, listed := a.sids[verifSIDs[x]]
 		verifAssert(listed == !gone[x], "a disconnected socket belongs to no room and is forgotten")
-		verifAssert(verifIn(a, verifSIDs[x], Room(verifSIDs[x])) == !gone[x], "own-id room kept unless disconnected")
+		verifAssert(verifIn(a, verifSIDs[x], Room(verifSIDs[x])) == (!gone[x] && x != ownLeft), "own-id room kept unless disconnected or left explicitly")
 	}
-	_ = st
+	// whatever the operation was: a broadcast without target rooms still reaches every socket that is connected, once
+	st.sent = nil
+	a.Broadcast(&parser.PacketHeader{Type: parser.PacketTypeEvent, Namespace: "/"}, []any{"ev"}, NewBroadcastOptions())
+	for x := 0; x < S; x++ {
+		want := 1
+		if gone[x] {
+			want = 0
+		}
+		verifAssert(verifCountSID(st.sent, verifSIDs[x]) == want, "after the operation a broadcast to everybody reaches every connected socket once, whatever rooms it has left")
+	}
 	verifReach("end")
 }
 
